@@ -23,6 +23,7 @@ COMMON = r'''
 #endif
 typedef void (*vf_fnptr)(void);
 typedef long vf_str;        /* opaque string id: equality only */
+typedef int vf_excptr;      /* std::exception_ptr: kind of the stored exception (0 = null, else a VF_EXC_* constant) */
 #define VF_STR_EMPTY ((vf_str)0)
 struct vf_fn { vf_fnptr fn; void* env; };
 struct vf_mt19937 { unsigned long opaque_state; }; /* std::mt19937: only its operator() (assumed callee) is used */
